@@ -434,7 +434,7 @@ def displacedSqueezed(r_d, phi_d, r_s, phi_s, trunc):
     alpha = r_d * np.exp(1j * phi_d)
 
     gamma = alpha * ch + np.conj(alpha) * ph * sh
-    hermite_arg = gamma / np.sqrt(ph * np.sinh(2 * r_s) + 1e-10)
+    hermite_arg = gamma / np.sqrt(ph * np.sinh(2 * r_s))
 
     # normalization constant
     N = np.exp(-0.5 * np.abs(alpha) ** 2 - 0.5 * np.conj(alpha) ** 2 * ph * th)
